@@ -8,6 +8,8 @@
 import GojaModel.Base.Proto
 import GojaModel.C13.Model
 import GojaModel.C13.Bridge
+import GojaModel.C13.Export
+import GojaModel.C13.MapModel
 
 namespace GojaModel.C13.Driver
 open GojaModel.C13 GojaModel.Proto
@@ -183,12 +185,88 @@ def showRel : Rel → String
   | .untypedNil => "untypedNil" | .jsExport => "jsExport" | .nativeWrapped => "nativeWrapped"
   | .ptrStripped => "ptrStripped"
 
+def showRelTo : RelTo → String
+  | .deepEqual => "deepEqual" | .func => "func" | .bigNilZero => "bigNilZero"
+  | .nilChainCollapsed => "nilChainCollapsed" | .notGoData => "notGoData"
+
 def runS (ws : List String) : String :=
   -- trailing "v=<n>" token selects the concrete Go type in the harness; the model ignores it
   let ws' := ws.filter (fun t => !t.startsWith "v=")
   match parseShape ws' with
-  | some sh => showWrap (toValueCase sh) ++ " " ++ showRel (roundTrip sh)
+  | some sh => showWrap (toValueCase sh) ++ " " ++ showRel (roundTrip sh) ++ " to=" ++ showRelTo (relTo sh)
   | none => "BADSHAPE"
+
+/-! ### X: export of a script-built graph.  `X o:0=5,1=r1 a:0=r0 …` — node i is an object (keys k<n>) or an array -/
+
+def parseField (s : String) : Option (Nat × JVal) :=
+  match s.splitOn "=" with
+  | [k, v] =>
+    if v.startsWith "r" then some (nat! k, .ref (nat! (String.ofList (v.toList.drop 1)))) else some (nat! k, .prim (int! v))
+  | _ => none
+
+def parseNode (s : String) : Bool × JFields :=
+  match s.splitOn ":" with
+  | [kind, fs] => (kind = "a", if fs = "" then [] else (fs.splitOn ",").filterMap parseField)
+  | _ => (false, [])
+
+/-- canonical print: depth-first from the root, fields in key order, numbering objects by first visit -/
+def canonG (isArr : Nat → Bool) (cache : List Nat) (out : List (Nat × GFields)) :
+    Nat → List Nat → GVal → List Nat × String
+  | _, vis, .prim p => (vis, showInt p)
+  | 0, vis, .addr _ => (vis, "…")
+  | fuel + 1, vis, .addr a =>
+    match handleNo vis a with
+    | some n => (vis, "#" ++ toString n)
+    | none =>
+      let fs := match out.find? (fun e => e.1 = a) with
+        | some e => e.2
+        | none => []
+      let arr := isArr (cache.getD a 0)
+      if arr && fs.isEmpty then (vis, "[]") else
+      let n := vis.length
+      let (vis', parts) := fs.foldl (fun (acc : List Nat × List String) (kg : Nat × GVal) =>
+          let (v1, s) := canonG isArr cache out fuel acc.1 kg.2
+          (v1, acc.2 ++ [if arr then s else "k" ++ toString kg.1 ++ ":" ++ s])) (vis ++ [a], [])
+      (vis', "#" ++ toString n ++ (if arr then "[" else "{") ++ ",".intercalate parts ++ (if arr then "]" else "}"))
+
+def runX (ws : List String) : String :=
+  let nodes := ws.map parseNode
+  let js : Nat → JFields := fun id => (nodes.getD id (false, [])).2
+  let isArr : Nat → Bool := fun id => (nodes.getD id (false, [])).1
+  let (c, g) := exportRoot js (nodes.length + 2) 0
+  if !c.ok then "FUEL" else
+  (canonG isArr c.cache c.out (nodes.length + 2) [] g).2
+
+/-! ### M: map wrapper histories.  `M <s|i> k=v,k=v | get:k set:k:x del:k ww:w:x gw:k:x gd:k` (keys 0..9) -/
+
+def dumpM (s : MSt) (pre : String) : String :=
+  let ents := (List.range 10).filterMap (fun k => (s.m k).map (fun v => toString k ++ ":" ++ showInt v))
+  let hs := (List.range s.nw).map (fun w => showInt (s.ws w))
+  pre ++ "m={" ++ ",".intercalate ents ++ "} h=[" ++ ",".intercalate hs ++ "]"
+
+def runMOp (s : MSt) (tok : String) : MSt × String :=
+  match tok.splitOn ":" with
+  | ["get", k] =>
+      let (s', r) := s.getKey (nat! k)
+      (s', match r with | some w => "g=" ++ toString w ++ " " | none => "g=- ")
+  | ["set", k, x] => (s.step (.set (nat! k) (int! x)), "")
+  | ["del", k] => (s.step (.del (nat! k)), "")
+  | ["ww", w, x] => (s.step (.wwrite (nat! w) (int! x)), "")
+  | ["gw", k, x] => (s.step (.goSet (nat! k) (int! x)), "")
+  | ["gd", k] => (s.step (.goDel (nat! k)), "")
+  | _ => (s, "BADOP ")
+
+def runM (ws : List String) : String :=
+  match ws with
+  | _ :: ents :: "|" :: ops =>
+    let kvs : List (Nat × Int) := if ents = "-" then [] else (ents.splitOn ",").filterMap (fun e =>
+      match e.splitOn "=" with | [k, v] => some (nat! k, int! v) | _ => none)
+    let init := MSt.init (fun k => (kvs.find? (fun kv => kv.1 = k)).map (·.2))
+    let (_, outs) := ops.foldl (fun (acc : MSt × List String) tok =>
+        let (s', pre) := runMOp acc.1 tok
+        (s', dumpM s' pre :: acc.2)) (init, [])
+    " ; ".intercalate outs.reverse
+  | _ => "BADLINE"
 
 def handle (line : String) : String :=
   match words line with
@@ -196,6 +274,8 @@ def handle (line : String) : String :=
   | "N" :: rest => runN rest
   | "F" :: rest => runF rest
   | "S" :: rest => runS rest
+  | "X" :: rest => runX rest
+  | "M" :: rest => runM rest
   | _ => "BADLINE"
 
 def main : IO Unit := lineMap handle
